@@ -33,8 +33,12 @@ def main() -> None:
             v = 0
         if rng.random() < 0.5:
             time.sleep(rng.random() * 0.002)
-        with open(counter, "w") as f:
+        # the read-modify-write is deliberately not atomic; the WRITE is (temp + rename), so that a SIGKILL
+        # in the middle of it cannot leave an empty file that the next holder would read as 0
+        tmp = f"{counter}.{pid}"
+        with open(tmp, "w") as f:
             f.write(str(v + 1))
+        os.replace(tmp, counter)
         os.write(logfd, f"X {pid} {r}\n".encode())
         lock.release()
         if rng.random() < 0.3:
